@@ -117,10 +117,13 @@ var schemas = map[string][]field{
 	"ModifyRequest":     {{"Params", "Params", kPtr("SessionParameters")}, {"ElectionId", "ElectionId", kPtr("Uint128")}, {"Operation", "Operation", kPtr("Unit")}},
 	// the client (client/gribiclient.go)
 	"pendingQueue": {{"Ops", "Ops", kind{k: "map", s: "PendingOp", t: []kind{kNat}}}, {"Election", "Election", kPtr("ElectionReqDetails")}, {"SessionParams", "SessionParams", kPtr("SessionParamReqDetails")}},
-	"IPv4EntryC":  {{"Prefix", "Prefix", kStr}},
-	"IPv6EntryC":  {{"Prefix", "Prefix", kStr}},
-	"LabelEntryC": {{"LabelUint64", "LabelUint64", kNat}},
-	"NHGEntryC":   {{"Id", "Id", kNat}},
+	"IPv4EntryC":  {{"Prefix", "Prefix", kStr}, {"Ipv4Entry", "Ipv4Entry", kPtr("Unit")}},
+	"IPv6EntryC":  {{"Prefix", "Prefix", kStr}, {"Ipv6Entry", "Ipv6Entry", kPtr("Unit")}},
+	"LabelEntryC": {{"LabelUint64", "LabelUint64", kNat}, {"LabelEntry", "LabelEntry", kPtr("Unit")}},
+	"NHGEntryC":   {{"Id", "Id", kNat}, {"NextHopGroup", "NextHopGroup", kPtr("Unit")}},
+	// the RIB's orchestration (rib/rib.go)
+	"pendingEntry": {{"ni", "ni", kStr}, {"op", "op", kPtrNN("AFTOperationC")}},
+	"RibOpResult":  {{"ID", "ID", kNat}},
 	"NHEntryC":    {{"Index", "Index", kNat}},
 	"AFTOperationC": {{"Id", "Id", kNat}, {"Op", "Op", kEnum}, {"Entry", "Entry", kind{k: "oneof", s: "AFTEntry"}}},
 	"ModifyRequestC": {{"Operation", "Operation", kind{k: "list", s: "AFTOperationC", elemNN: true}}, {"ElectionId", "ElectionId", kPtr("Uint128")}, {"Params", "Params", kPtr("SessionParameters")}},
@@ -143,7 +146,7 @@ var leanStruct = map[string]string{
 	"IPv4EntryC": "IPv4EntryC", "IPv6EntryC": "IPv6EntryC", "LabelEntryC": "LabelEntryC", "NHGEntryC": "NHGEntryC", "NHEntryC": "NHEntryC", "AFTOperationC": "AFTOperationC", "ModifyRequestC": "ModifyRequestC",
 	"AFTErrorDetails": "AFTErrorDetails", "AFTResultC": "AFTResultC", "SessionParametersResult": "SessionParametersResult", "ModifyResponseC": "ModifyResponseC", "PendingOp": "PendingOp",
 	"ElectionReqDetails": "ElectionReqDetails", "SessionParamReqDetails": "SessionParamReqDetails", "OpDetailsResults": "OpDetailsResults", "COpResult": "COpResult",
-	"AFTResultList": "(List AFTResultC)", "Bool": "Bool", "pendingQueue": "PendingQueue",
+	"AFTResultList": "(List AFTResultC)", "Bool": "Bool", "pendingQueue": "PendingQueue", "pendingEntry": "PendingEntry", "RibOpResult": "RibOpResult",
 }
 
 func leanType(k kind) string {
@@ -173,6 +176,8 @@ func leanType(k kind) string {
 		return "Option FlushResult"
 	case "set":
 		return "List Nat"
+	case "any":
+		return "AnyKey"
 	case "map":
 		return "(Map " + leanType(mapKey(k)) + " " + leanStruct[k.s] + ")"
 	case "aftresult":
@@ -536,6 +541,12 @@ func trExpr(e ast.Expr, en env) val {
 		if x, ok := en.vars[r]; ok { // state field such as s.curElecID
 			return x
 		}
+		if id, ok := v.X.(*ast.Ident); ok && id.Name == "constants" && cur != nil {
+			if _, ok := cur.extConsts[r]; ok {
+				return val{lean: "constants_" + v.Sel.Name, kd: kEnum}
+			}
+			fail(v.Pos(), "constant %s is not declared in the function's specification", r)
+		}
 		if id, ok := v.X.(*ast.Ident); ok && id.Name == "spb" {
 			for _, p := range []string{"SessionParameters_", "AFTOperation_", "AFTType_", "AFTResult_"} {
 				if strings.HasPrefix(v.Sel.Name, p) {
@@ -586,6 +597,20 @@ func trExpr(e ast.Expr, en env) val {
 			}
 			return val{lean: "[" + strings.Join(els, ", ") + "]", kd: kind{k: "list", s: "AFTResult"}}
 		}
+		if at, ok := v.Type.(*ast.ArrayType); ok && len(v.Elts) == 0 {
+			if st, ok := at.Elt.(*ast.StarExpr); ok {
+				name := render(st.X)
+				if cur != nil {
+					if a, ok := cur.typeMap[name]; ok {
+						name = a
+					}
+				}
+				if _, ok := schemas[name]; ok {
+					// an empty slice of pointers to a known struct (non-nil elements are appended)
+					return val{lean: "[]", kd: kind{k: "list", s: name, elemNN: true}}
+				}
+			}
+		}
 		if mt, ok := v.Type.(*ast.MapType); ok && render(mt.Value) == "bool" && len(v.Elts) == 0 {
 			// map[K]bool used as a set of enumeration values / numbers
 			return val{lean: "[]", kd: kind{k: "set"}}
@@ -625,8 +650,17 @@ func trExpr(e ast.Expr, en env) val {
 			}
 		}
 		fail(v.Pos(), "binary %s", v.Op)
+	case *ast.StarExpr:
+		if x, ok := en.vars[render(v)]; ok && cur != nil && cur.isState(render(v)) {
+			return x
+		}
+		fail(v.Pos(), "dereference %s", render(v))
 	case *ast.IndexExpr:
 		m := trExpr(v.X, en)
+		if m.kd.k == "set" {
+			k := trExpr(v.Index, en)
+			return val{lean: "(" + atom(m.lean) + ".contains " + atom(k.lean) + ")", kd: kBool}
+		}
 		if m.kd.k != "map" {
 			fail(v.Pos(), "index of %s", m.kd)
 		}
@@ -642,6 +676,12 @@ func trExpr(e ast.Expr, en env) val {
 	}
 	fail(e.Pos(), "unsupported expression %s (%T)", render(e), e)
 	return val{}
+}
+
+// ignoredFields: fields of a struct that no translated decision reads (the operation a result
+// belongs to is identified by ID; error texts are not compared)
+var ignoredFields = map[string]map[string]bool{
+	"RibOpResult": {"Op": true, "Error": true},
 }
 
 // trComposite: &clientParams{F: e, ...}
@@ -663,6 +703,9 @@ func trComposite(cl *ast.CompositeLit, en env) val {
 			fail(el.Pos(), "positional composite literal")
 		}
 		k := render(kv.Key)
+		if ignoredFields[name][k] {
+			continue
+		}
 		f := fieldOf(name, k, kv.Pos())
 		x := trExpr(kv.Value, en)
 		if f.kd.k == "ptr" && f.kd.nn {
@@ -745,10 +788,12 @@ func trTypeSwitch(v *ast.TypeSwitchStmt, en env, next cont) string {
 	cases := oneofs[x.kd.s]
 	var arms []string
 	covered := map[string]bool{}
+	var dfltClause *ast.CaseClause
 	for _, c := range v.Body.List {
 		cc := c.(*ast.CaseClause)
 		if cc.List == nil {
-			fail(cc.Pos(), "default in a type switch")
+			dfltClause = cc
+			continue
 		}
 		if len(cc.List) != 1 {
 			fail(cc.Pos(), "type switch case with several types")
@@ -790,10 +835,19 @@ func trTypeSwitch(v *ast.TypeSwitchStmt, en env, next cont) string {
 			if len(oc.fields) > 0 {
 				pat = "(" + pat + ")"
 			}
+			if dfltClause != nil {
+				arms = append(arms, fmt.Sprintf("| some %s => %s", pat, trStmts(dfltClause.Body, en.push(), func(e env) string { return next(e.pop()) })))
+				continue
+			}
 			arms = append(arms, fmt.Sprintf("| some %s => %s", pat, next(en)))
 		}
 	}
-	arms = append(arms, "| none => "+next(en))
+	if dfltClause != nil {
+		// the default also takes a nil interface value
+		arms = append(arms, "| none => "+trStmts(dfltClause.Body, en.push(), func(e env) string { return next(e.pop()) }))
+	} else {
+		arms = append(arms, "| none => "+next(en))
+	}
 	return wrapLets(lets, "(match "+x.lean+" with\n"+strings.Join(arms, "\n")+")")
 }
 
@@ -972,10 +1026,17 @@ func loopState(list []ast.Stmt, en env) []string {
 					}
 				}
 			}
+			if ce, ok := n.(*ast.CallExpr); ok && render(ce.Fun) == "delete" && len(ce.Args) == 2 {
+				add(render(ce.Args[0]))
+			}
 			for _, l := range lhs {
 				switch lv := l.(type) {
 				case *ast.Ident:
 					add(lv.Name)
+				case *ast.StarExpr:
+					add(render(lv))
+				case *ast.IndexExpr:
+					add(render(lv.X))
 				case *ast.SelectorExpr:
 					r := render(lv)
 					if cur != nil && cur.isState(r) {
@@ -1204,6 +1265,12 @@ func trRange(v *ast.RangeStmt, en env, next cont) string {
 		fail(v.Pos(), "range value")
 	}
 	l := trExpr(v.X, en)
+	elemSuffix := ""
+	if l.kd.k == "map" {
+		// a Go map of pointers: its (key, value) pairs in an arbitrary order
+		l = val{lean: l.lean, kd: kind{k: "list", s: l.kd.s, elemNN: true}}
+		elemSuffix = ".2"
+	}
 	if l.kd.k != "list" || l.kd.s == "AFTResult" {
 		fail(v.Pos(), "range over %s", l.kd)
 	}
@@ -1219,7 +1286,7 @@ func trRange(v *ast.RangeStmt, en env, next cont) string {
 	an, xn := fresh("acc"), fresh(xv.Name)
 	inner := en.push()
 	inner.vars[accs[0]] = val{lean: an, kd: acc.kd}
-	inner.declare(xv.Name, val{lean: xn, kd: kPtrNN(l.kd.s), path: fresh("path")})
+	inner.declare(xv.Name, val{lean: xn + elemSuffix, kd: kPtrNN(l.kd.s), path: fresh("path")})
 	nEff := len(inner.effects)
 	body := trStmts(v.Body.List, inner, func(e env) string {
 		if len(e.effects) != nEff {
@@ -1324,6 +1391,57 @@ func trCall(c *ast.CallExpr, en env) []val {
 				return []val{selectField(x, strings.TrimPrefix(sel.Sel.Name, "Get"), en, c.Pos())}
 			}
 		}
+	}
+	// a recursive call: the function to call is the parameter `self`; the state and the effects
+	// recorded so far go in, the new state and the extended effect list come out
+	if cur != nil && cur.selfRec && fn == cur.callAs {
+		if len(c.Args) != len(cur.params) {
+			fail(c.Pos(), "recursive call with %d arguments", len(c.Args))
+		}
+		if len(oracleEffects) > 0 || len(pendingState) > 0 || pendingEffBase != "" {
+			fail(c.Pos(), "recursive call inside an expression with other calls")
+		}
+		var args []string
+		for j, a := range c.Args {
+			pp := cur.params[j]
+			if pp.skip {
+				continue
+			}
+			x := trExpr(a, en)
+			if pp.nonnil {
+				if x.kd.k == "ptr" && x.kd.nn {
+					args = append(args, atom(x.lean))
+					continue
+				}
+				b, ok := en.bound[x.path]
+				if !ok {
+					fail(a.Pos(), "argument %s of the recursive call must be non-nil and is not known to be", render(a))
+				}
+				args = append(args, atom(b))
+				continue
+			}
+			args = append(args, atom(x.lean))
+		}
+		for _, st := range cur.state {
+			args = append(args, atom(en.vars[st.goExpr].lean))
+		}
+		args = append(args, atom(effsExpr(en)))
+		n := fresh("rec")
+		pendingLets = append(pendingLets, fmt.Sprintf("let %s := self %s", n, strings.Join(args, " ")))
+		total := len(cur.rets) + len(cur.state) + 1
+		var out []val
+		for j, rk := range cur.rets {
+			out = append(out, val{lean: n + "." + projPath(j, total), kd: retKind(rk), path: fresh("path")})
+		}
+		for j, st := range cur.state {
+			sn := fresh(lastName(st.goExpr))
+			pendingLets = append(pendingLets, fmt.Sprintf("let %s := %s.%s", sn, n, projPath(len(cur.rets)+j, total)))
+			pendingState[st.goExpr] = val{lean: sn, kd: st.kd, path: st.goExpr}
+		}
+		en2 := fresh("effs")
+		pendingLets = append(pendingLets, fmt.Sprintf("let %s := %s.%s", en2, n, projPath(total-1, total)))
+		pendingEffBase = en2
+		return out
 	}
 	// oracle
 	if cur != nil {
@@ -1518,11 +1636,18 @@ func effsExpr(en env) string {
 // absorb moves them into an environment
 var pendingState = map[string]val{}
 
+// pendingEffBase: the effect list returned by a call of `self` (it extends the list passed in)
+var pendingEffBase string
+
 func absorb(en env) env {
-	if len(oracleEffects) == 0 && len(pendingState) == 0 {
+	if len(oracleEffects) == 0 && len(pendingState) == 0 && pendingEffBase == "" {
 		return en
 	}
 	e := en.clone()
+	if pendingEffBase != "" {
+		e.effBase, e.effects = pendingEffBase, nil
+		pendingEffBase = ""
+	}
 	e.effects = append(e.effects, oracleEffects...)
 	oracleEffects = nil
 	for k, v := range pendingState {
@@ -1549,6 +1674,9 @@ func absorb(en env) env {
 // statefulCallee: the translated function (with state) that the call expression invokes, if any
 func statefulCallee(c *ast.CallExpr) *fnSpec {
 	fn := render(c.Fun)
+	if cur != nil && cur.selfRec && fn == cur.callAs {
+		return cur
+	}
 	for i := range specs {
 		sp := &specs[i]
 		if cur != nil && sp.file != cur.file {
@@ -1591,6 +1719,9 @@ func retKind(r string) kind {
 	}
 	if strings.HasPrefix(r, "ptrnn:") {
 		return kPtrNN(strings.TrimPrefix(r, "ptrnn:"))
+	}
+	if strings.HasPrefix(r, "list:") {
+		return kind{k: "list", s: strings.TrimPrefix(r, "list:"), elemNN: true}
 	}
 	switch r {
 	case "nat":
@@ -1836,8 +1967,20 @@ func bindResult(en *env, name string, v val, define bool, pos token.Pos) {
 	if define {
 		en.declare(name, v)
 	} else {
-		if _, ok := en.vars[name]; !ok {
+		old, ok := en.vars[name]
+		if !ok {
 			fail(pos, "assignment to undeclared %s", name)
+		}
+		if old.kd.k == "any" && v.kd.k != "any" {
+			// a value stored in an interface variable keeps its dynamic type
+			switch v.kd.k {
+			case "str":
+				v = val{lean: "(AnyKey.str " + atom(v.lean) + ")", kd: old.kd}
+			case "nat", "u64":
+				v = val{lean: "(AnyKey.num " + atom(v.lean) + ")", kd: old.kd}
+			default:
+				fail(pos, "value of kind %s stored in an interface variable", v.kd)
+			}
 		}
 		en.vars[name] = v
 	}
@@ -2049,6 +2192,12 @@ func trAssign(a *ast.AssignStmt, en env) env {
 				}
 			}
 			fail(a.Pos(), "assignment to %s, which is neither a declared state field nor a field of a local struct", r)
+		case *ast.StarExpr:
+			r := render(lv)
+			if cur == nil || !cur.isState(r) {
+				fail(a.Pos(), "assignment through %s, which is not a declared state field", r)
+			}
+			en.vars[r] = vals[i]
 		case *ast.IndexExpr:
 			if mv, isMap := en.vars[render(lv.X)]; isMap && mv.kd.k == "map" {
 				v := vals[i]
@@ -2059,18 +2208,159 @@ func trAssign(a *ast.AssignStmt, en env) env {
 				mapUpdate(&en, lv.X, lv.Index, b, true, a.Pos())
 				break
 			}
-			id, ok := lv.X.(*ast.Ident)
 			x, ok2 := en.vars[render(lv.X)]
-			if !ok || !ok2 || x.kd.k != "set" || render(a.Rhs[i]) != "true" {
+			if !ok2 || x.kd.k != "set" || render(a.Rhs[i]) != "true" {
 				fail(a.Pos(), "assignment to %s", render(l))
 			}
 			k := trExpr(lv.Index, en)
-			en.vars[id.Name] = val{lean: "(" + k.lean + " :: " + x.lean + ")", kd: x.kd}
+			en.vars[render(lv.X)] = val{lean: "(" + k.lean + " :: " + x.lean + ")", kd: x.kd, path: x.path}
 		default:
 			fail(a.Pos(), "assignment to %s", render(l))
 		}
 	}
 	return en
+}
+
+// ---- join points
+//
+// The translation is in continuation-passing style: the code after an `if` or `switch` is
+// translated once per path through it. For a function with several consecutive branching
+// statements that multiplies; with `joins` set in its specification, the code after a branching
+// statement becomes one local function (`let rec joinN`, which Lean lifts like the loops) whose
+// parameters are the outer places the statement assigns, and every path through the statement
+// ends in a call of it. What the statement learnt about nil-ness of those places is not passed
+// on; if the rest needs it the attempt fails and the statement is translated by duplication.
+
+var joinIndex int
+var inJoinAttempt = map[ast.Stmt]bool{}
+
+func endsInReturn(list []ast.Stmt) bool {
+	if len(list) == 0 {
+		return false
+	}
+	_, ok := list[len(list)-1].(*ast.ReturnStmt)
+	return ok
+}
+
+func hasBranching(list []ast.Stmt) bool {
+	found := false
+	for _, st := range list {
+		ast.Inspect(st, func(n ast.Node) bool {
+			switch n.(type) {
+			case *ast.IfStmt, *ast.SwitchStmt, *ast.TypeSwitchStmt, *ast.RangeStmt:
+				found = true
+			}
+			return !found
+		})
+	}
+	return found
+}
+
+func wantsJoin(s ast.Stmt, rest []ast.Stmt) bool {
+	if len(rest) == 0 || !hasBranching(rest) {
+		return false
+	}
+	switch v := s.(type) {
+	case *ast.IfStmt:
+		if v.Else == nil && endsInReturn(v.Body.List) {
+			return false
+		}
+		return true
+	case *ast.SwitchStmt, *ast.TypeSwitchStmt:
+		return true
+	}
+	return false
+}
+
+func tryJoin(s ast.Stmt, rest []ast.Stmt, en env, k cont) (out string, ok bool) {
+	savedLets, savedCounter, savedLoop, savedJoin := append([]string{}, pendingLets...), counter, loopIndex, joinIndex
+	savedEffs, savedEffBase := append([]string{}, oracleEffects...), pendingEffBase
+	savedState := map[string]val{}
+	for a, b := range pendingState {
+		savedState[a] = b
+	}
+	defer func() {
+		if r := recover(); r != nil {
+			if _, isT := r.(terr); !isT {
+				panic(r)
+			}
+			pendingLets, counter, loopIndex, joinIndex = savedLets, savedCounter, savedLoop, savedJoin
+			oracleEffects, pendingEffBase, pendingState = savedEffs, savedEffBase, savedState
+			delete(inJoinAttempt, s)
+			out, ok = "", false
+		}
+	}()
+	lets := takeLets()
+	places := loopState([]ast.Stmt{s}, en)
+	joinIndex++
+	name := fmt.Sprintf("join%d", joinIndex)
+	var binders, types []string
+	e0 := en.clone()
+	for _, p := range places {
+		x := materialise(e0.vars[p], e0, s.Pos())
+		lets = append(lets, takeLets()...)
+		e0.vars[p] = x
+		binders = append(binders, fresh(lastName(p)))
+		types = append(types, atom2(leanType(x.kd)))
+	}
+	effName := ""
+	if cur.effects {
+		effName = fresh("effs")
+		binders = append(binders, effName)
+		types = append(types, "(List Eff)")
+	}
+	if len(binders) == 0 {
+		// nothing to pass: a function of a unit argument
+		binders = append(binders, "_u")
+		types = append(types, "Unit")
+	}
+	restEnv := e0.clone()
+	for i, p := range places {
+		x := e0.vars[p]
+		nv := val{lean: binders[i], kd: x.kd, path: fresh("path")}
+		if cur.isState(p) {
+			nv.path = x.path
+			if x.kd.k == "map" {
+				forkEntries(&restEnv, p)
+				for q := range restEnv.bound {
+					if strings.HasPrefix(q, p+"[") {
+						delete(restEnv.bound, q)
+					}
+				}
+				for q := range restEnv.isNil {
+					if strings.HasPrefix(q, p+"[") {
+						delete(restEnv.isNil, q)
+					}
+				}
+			}
+		}
+		restEnv.vars[p] = nv
+	}
+	if effName != "" {
+		restEnv.effBase, restEnv.effects = effName, nil
+	}
+	tail := trStmts(rest, restEnv, k)
+	inJoinAttempt[s] = true
+	body := trStmts([]ast.Stmt{s}, e0, func(e env) string {
+		var args []string
+		e = e.clone()
+		for _, p := range places {
+			x := materialise(e.vars[p], e, s.Pos())
+			args = append(args, atom(x.lean))
+		}
+		if effName != "" {
+			args = append(args, atom(effsExpr(e)))
+		}
+		if len(args) == 0 {
+			args = append(args, "()")
+		}
+		ls := takeLets()
+		return wrapLets(ls, "("+name+" "+strings.Join(args, " ")+")")
+	})
+	delete(inJoinAttempt, s)
+	sig := strings.Join(types, " → ") + " → " + atom2(strings.Join(curRetTypes, " × "))
+	def := fmt.Sprintf("let rec %s : %s := fun %s => (%s)", name, sig, strings.Join(binders, " "), tail)
+	return wrapLets(lets, "("+def+";\n"+body+")"), true
 }
 
 func trStmts(list []ast.Stmt, en env, k cont) string {
@@ -2079,6 +2369,11 @@ func trStmts(list []ast.Stmt, en env, k cont) string {
 	}
 	s, rest := list[0], list[1:]
 	next := func(e env) string { return trStmts(rest, e, k) }
+	if cur != nil && cur.joins && !inJoinAttempt[s] && wantsJoin(s, rest) {
+		if out, ok := tryJoin(s, rest, en, k); ok {
+			return out
+		}
+	}
 	switch v := s.(type) {
 	case *ast.ReturnStmt:
 		if cur != nil && cur.loop {
@@ -2196,6 +2491,14 @@ func trStmts(list []ast.Stmt, en env, k cont) string {
 					e1.declare(n.Name, val{lean: "none", kd: kind{k: "mresp"}, path: p})
 				case "[]*rib.OpResult":
 					e1.declare(n.Name, val{lean: "[]", kd: kind{k: "list", s: "OpResult"}})
+				case "string":
+					e1.declare(n.Name, val{lean: `""`, kd: kStr})
+				case "uint64":
+					e1.declare(n.Name, val{lean: "(0 : Nat)", kd: kNat})
+				case "constants.AFT", "constants.OpType":
+					e1.declare(n.Name, val{lean: "(0 : Nat)", kd: kEnum})
+				case "any":
+					e1.declare(n.Name, val{lean: "AnyKey.none", kd: kind{k: "any"}})
 				default:
 					fail(v.Pos(), "var of type %s", t)
 				}
@@ -2454,6 +2757,13 @@ func trRetVal(e ast.Expr, want string, en env) string {
 		}
 		return x.lean
 	}
+	if strings.HasPrefix(want, "list:") {
+		x := trExpr(e, en)
+		if x.kd.k != "list" || x.kd.s != strings.TrimPrefix(want, "list:") {
+			fail(e.Pos(), "returned value of kind %s, %s expected", x.kd, want)
+		}
+		return x.lean
+	}
 	if strings.HasPrefix(want, "ptrnn:") {
 		// the function never returns nil: the struct itself is returned
 		x := trExpr(e, en)
@@ -2662,11 +2972,26 @@ func translate(sp *fnSpec, files map[string]*ast.File, srcs map[string][]byte) (
 			return "", fmt.Errorf("%s: constant %s is %q in the source, the translator expects %s", sp.goName, name, got, want)
 		}
 	}
+	if len(sp.extConsts) > 0 {
+		cf := files["constants/const.go"]
+		if cf == nil {
+			return "", fmt.Errorf("%s: constants/const.go was not read", sp.goName)
+		}
+		for name, want := range sp.extConsts {
+			got, ok := constValue(cf, strings.TrimPrefix(name, "constants."))
+			if !ok || got != want {
+				return "", fmt.Errorf("%s: constant %s is %q in the source, the translator expects %s", sp.goName, name, got, want)
+			}
+		}
+	}
 	cur = sp
 	pendingLets = nil
 	oracleEffects = nil
+	pendingState = map[string]val{}
+	pendingEffBase = ""
 	counter = 0
 	loopIndex = 0
+	joinIndex = 0
 	en := env{vars: map[string]val{}, bound: map[string]string{}, isNil: map[string]bool{}, closures: map[string]*ast.FuncLit{}}
 	var binders []string
 	// Go parameters, in order, must be the ones the spec lists
@@ -2764,6 +3089,24 @@ func translate(sp *fnSpec, files map[string]*ast.File, srcs map[string][]byte) (
 		retTypes = []string{"LoopOut"}
 	}
 	curRetTypes = retTypes
+	if sp.selfRec {
+		var ts []string
+		for _, p := range sp.params {
+			if p.skip {
+				continue
+			}
+			if p.nonnil {
+				ts = append(ts, leanStruct[p.kd.s])
+			} else {
+				ts = append(ts, atom2(leanType(p.kd)))
+			}
+		}
+		for _, st := range sp.state {
+			ts = append(ts, atom2(leanType(st.kd)))
+		}
+		ts = append(ts, "List Eff")
+		binders = append([]string{"(self : " + strings.Join(ts, " → ") + " → " + atom2(strings.Join(retTypes, " × ")) + ")"}, binders...)
+	}
 	body := trStmts(stmts, en, func(e env) string {
 		if sp.loop {
 			return "(LoopOut.cont " + atom(e.vars["gotmsg"].lean) + " " + effsExpr(e) + ")"
@@ -2887,6 +3230,12 @@ func main() {
 		}
 		files[rel] = f
 		srcs[rel] = b
+	}
+	if b, err := os.ReadFile(filepath.Join(*repo, "constants/const.go")); err == nil {
+		if f, err := parser.ParseFile(fset, "constants/const.go", b, parser.ParseComments); err == nil {
+			files["constants/const.go"] = f
+			srcs["constants/const.go"] = b
+		}
 	}
 	structProblems := checkRepoStructs(files)
 	okCount := 0
